@@ -301,6 +301,16 @@ class _InlineTemps(ast.NodeTransformer):
                         out.append(b)
                         i += 2
                         continue
+                    # the one call of the statement: `t = f(x)` / `return not t` (nothing else is called there, t is evaluated first)
+                    if use is not None and not isinstance(use, ast.Name) and loads.get(t, 0) == 1 and stores.get(t, 0) == 1 and t not in params and \
+                            not any(isinstance(x, (ast.Call, ast.Await, ast.Yield, ast.YieldFrom, ast.Lambda, ast.GeneratorExp, ast.ListComp, ast.SetComp,
+                                                   ast.DictComp, ast.NamedExpr, ast.IfExp, ast.BoolOp)) for x in ast.walk(use)) and \
+                            _first_evaluated(use, t) and \
+                            not (isinstance(b, ast.Assign) and any(isinstance(x, ast.Name) and x.id == t for tg in b.targets for x in ast.walk(tg))):
+                        _replace_name(b, t, a.value)
+                        out.append(b)
+                        i += 2
+                        continue
                 out.append(a)
                 i += 1
             return out
